@@ -91,10 +91,9 @@ type Violation struct {
 func (v *Violation) Key() string {
 	v.Case.Pack()
 	k := v.Kind + "|" + v.Case.Kind + "|"
-	if v.Case.InQ != "" {
-		k += v.Case.InQ
-	} else {
-		k += "desc:" + v.Case.Desc
+	k += v.Case.InQ
+	if v.Case.Desc != "" {
+		k += "|desc:" + v.Case.Desc
 	}
 	return k
 }
@@ -126,6 +125,9 @@ type Check struct {
 	// Custom replaces the whole runner for checks that need their own
 	// process structure (C05, C09). It must fill the report.
 	Custom func(r *Run)
+	// ProbeBudget overrides the per-case budget of the fresh-process
+	// confirmation (0 = CaseBudget x 6).
+	ProbeBudget time.Duration
 	// Explain prints both sides of the comparison for replay.
 	Explain func(c Case) string
 }
@@ -215,6 +217,9 @@ func (w *Worker) Observe(set, key string) {
 }
 
 func (w *Worker) Count(name string, n uint64) { w.counters[name] += n }
+
+// SetCur sets the case that Violate attributes to (custom runners).
+func (w *Worker) SetCur(c Case) { w.cur = c }
 
 func (w *Worker) Sample(s string) {
 	if len(w.samples) < 4 && len(s) <= 200 {
@@ -393,14 +398,23 @@ func (r *Run) merge(w *Worker) {
 	w.counters = map[string]uint64{}
 }
 
-func (r *Run) Note(s string)         { r.mu.Lock(); r.rep.Notes = append(r.rep.Notes, s); r.mu.Unlock() }
-func (r *Run) Inconclusive(s string) { r.mu.Lock(); r.rep.Inconcl = append(r.rep.Inconcl, s); r.mu.Unlock() }
-func (r *Run) Rep() *Report          { return &r.rep }
+func (r *Run) Note(s string) { r.mu.Lock(); r.rep.Notes = append(r.rep.Notes, s); r.mu.Unlock() }
+func (r *Run) Inconclusive(s string) {
+	r.mu.Lock()
+	r.rep.Inconcl = append(r.rep.Inconcl, s)
+	r.mu.Unlock()
+}
+func (r *Run) Rep() *Report { return &r.rep }
 func (r *Run) NewWorker(id int) *Worker {
 	w := newWorker(r, id)
 	return w
 }
 func (r *Run) Merge(w *Worker) { r.merge(w) }
+
+// NewWorkerBare returns a worker that is not attached to a check (tools).
+func (r *Run) NewWorkerBare() *Worker {
+	return &Worker{R: r, obs: map[string]map[string]uint64{}, counters: map[string]uint64{}, Local: map[string]interface{}{}, Rng: NewRng(r.Seed, "bare")}
+}
 
 func (r *Run) popcount() uint64 {
 	var n uint64
